@@ -23,6 +23,7 @@ structure St where
   graphs : List (Nat × Cont Nat) := []   -- container slots
   own : OwnSt Nat Nat := {}              -- ownership accounting (C19)
   sres : List String := []               -- results of script operations run from callbacks (C20)
+  lastLt : String := ""                  -- lock trace of the last edge operation (sync flavours)
 
 def showList (l : List (Nat × Nat)) : String :=
   "[" ++ ",".intercalate (l.map fun (k, e) => s!"{k}:{e}") ++ "]"
@@ -589,6 +590,20 @@ def stripVia (line : String) : String :=
 def edgeRes (st : St) (r : S × Res Nat) : St × String :=
   ({ st with s := r.1 }, showRes r.2)
 
+def showTok (t : Tok Nat) : String :=
+  let m := match t.2.1 with | .r => "R" | .w => "W"
+  let l := match t.1 with | .node k => toString k | .mutex => "m"
+  s!"{m}{l}@{t.2.2}"
+
+/-- the lock requests the sync flavour makes for this call, from the lock program run alone on the current store -/
+def lockTrace (st : St) (op : Op Nat Nat) (line : String) : String :=
+  if st.fl != "sdi" && st.fl != "sun" then "" else
+  if (line.splitOn " #via=").length > 1 && !((line.splitOn " #via=").getD 1 "").startsWith "clone" then "" else
+  let p := if st.directed then Sync.Di.prog true op else Sync.Un.prog true op
+  match runSingle 100000 p st.s [] [] with
+  | some (_, _, tr) => ",".intercalate (tr.map showTok)
+  | none => "blocked"
+
 def step (st : St) (line : String) : St × String :=
   match (stripVia line.trimAscii.toString).splitOn " " with
   | "case" :: fl :: _ => ({ directed := fl == "di" || fl == "sdi", fl := fl }, "case")
@@ -596,19 +611,20 @@ def step (st : St) (line : String) : St × String :=
     | some k, some v => ({ st with keys := st.keys ++ [k], nvals := st.nvals ++ [(k, v)] }, "ok")
     | _, _ => (st, "bad-op")
   | ["connect", u, v, e] => match u.toNat?, v.toNat?, e.toNat? with
-    | some u, some v, some e => ({ st with s := connect st.s u v e }, "ok")
+    | some u, some v, some e => ({ st with s := connect st.s u v e, lastLt := lockTrace st (.connect u v e) line }, "ok")
     | _, _, _ => (st, "bad-op")
   | ["try_connect", u, v, e] => match u.toNat?, v.toNat?, e.toNat? with
     | some u, some v, some e =>
-      edgeRes st (if st.directed then Di.tryConnect st.s u v e else Un.tryConnect st.s u v e)
+      edgeRes { st with lastLt := lockTrace st (.tryConnect u v e) line } (if st.directed then Di.tryConnect st.s u v e else Un.tryConnect st.s u v e)
     | _, _, _ => (st, "bad-op")
   | ["disconnect", u, v] => match u.toNat?, v.toNat? with
     | some u, some v =>
-      edgeRes st (if st.directed then Di.disconnect st.s u v else Un.disconnect st.s u v)
+      edgeRes { st with lastLt := lockTrace st (.disconnect u v) line } (if st.directed then Di.disconnect st.s u v else Un.disconnect st.s u v)
     | _, _ => (st, "bad-op")
   | ["isolate", u] => match u.toNat? with
-    | some u => edgeRes st (if st.directed then Di.isolate st.s u else Un.isolate st.s u)
+    | some u => edgeRes { st with lastLt := lockTrace st (.isolate u) line } (if st.directed then Di.isolate st.s u else Un.isolate st.s u)
     | none => (st, "bad-op")
+  | ["lt"] => (st, s!"lt={st.lastLt}")
   | ["dump"] => (st, dump st)
   | ["obs", u] => match u.toNat? with
     | some u => (st, obs st u)
